@@ -7,6 +7,7 @@ package claim
 
 import (
 	"context"
+	"reflect"
 
 	"github.com/crossplane/crossplane-runtime/pkg/resource/unstructured/claim"
 	"github.com/crossplane/crossplane-runtime/pkg/resource/unstructured/composite"
@@ -57,13 +58,13 @@ func zzMachineryValue(field string) any {
 // and its XR.
 //
 //gosym:harness
-//gosym:cover bound-existing created-new reserved-label manual automatic
+//gosym:cover bound-existing created-new reserved-label manual automatic manual-pin
 func HarnessC07SyncSSA() { zzC07Sync(true) }
 
 // HarnessC07SyncCSA: the same for the client-side (merge based) syncer.
 //
 //gosym:harness
-//gosym:cover bound-existing created-new reserved-label manual automatic claim-without-status
+//gosym:cover bound-existing created-new reserved-label manual automatic claim-without-status manual-pin
 func HarnessC07SyncCSA() { zzC07Sync(false) }
 
 func zzC07Sync(ssa bool) {
@@ -243,6 +244,11 @@ func zzC07Sync(ssa bool) {
 	if policy != 1 && hasRevRef && !(xrExists && xrHasRevRef) {
 		_, in := xspec["compositionRevisionRef"]
 		zz.Assert("revision-ref-not-propagated-unless-manual", !in)
+	}
+	if policy == 1 && hasRevRef && xrExists {
+		// under the Manual policy the claim's pinned revision is the XR's
+		zz.Cover("manual-pin")
+		zz.Assert("manual-policy-propagates-the-claims-revision-to-the-xr", reflect.DeepEqual(xspec["compositionRevisionRef"], zzMachineryValue("compositionRevisionRef")))
 	}
 	cr, _ := xspec["claimRef"].(map[string]any)
 	zz.Assert("xr-claimref-names-the-claim", cr != nil && cr["name"] == any("cm") && cr["namespace"] == any("team"))
